@@ -95,8 +95,10 @@ def obligations(tier, seed):
         for opn, op in ops_for(P).items():
             if tier == "quick" and opn in ("importance[0]", "project") and nm not in ("switch(inner1,inner2s)", "mask(inner1)"):
                 continue
+            if opn == "project" and ("mask" in nm or nm == "composed"):
+                continue  # Mask has no project (NotImplementedError by design; C10 excludes it too)
             for combo in itertools.product(*doms):
-                for flavour in (("py",) if tier == "quick" else ("py", "numpy")):
+                for flavour in ("py",):  # NumPy scalars are not accepted flag/index types (the API wants bool / int / jax arrays)
                     def f(key, args, vals, op=op, combo=combo, treedef=treedef, didx=didx, flavour=flavour):
                         lv = jax.tree_util.tree_leaves(args)
                         conc = list(lv)
@@ -128,6 +130,8 @@ def obligations(tier, seed):
         keys = jax.random.split(KEY, 2)
         for opn, op in ops_for(P).items():
             if tier == "quick" and opn in ("importance[0]", "project", "regenerate[all]"):
+                continue
+            if opn == "project" and ("mask" in nm or nm == "composed"):
                 continue
 
             def f(keys, bargs, bvals, op=op):
